@@ -75,4 +75,11 @@ PROPS["C03"] = {
     "nontrivial_min_tokens": 30,
 }
 
+PROPS["C04"] = {
+    "level_text": "Theorems: roaring's bit-sliced GE and LE comparisons are correct for ALL int64 pairs (induction over the 63 magnitude slices) while EQ/GT/LT/RANGE are refuted with witnesses; every numeric operator of the repaired index (built from GE/LE) selects exactly the ids satisfying the ordinary comparison; finite-set algebra of AND/OR/complement. The faithful Gallina model of metadata_index*.go (keys, prefix-based existence, early exits, error branches, float fixed-point conversion via float64 multiply + truncation) is compared with the code AND with a document-store specification on every generated history and filter tree.",
+    "level_note": "Trusted: as C02; fmt %v rendering of operands and Go map iteration (irrelevant for supported types). The end-to-end refinement 'index state simulates the document store for every history' is decided per run by the extracted specification (spec_search) on every sampled case, not closed as one Coq theorem (partial).",
+    "correspondence": "metadata_index.go/metadata_index_search.go ~ Model.Metadata; roaring BSI compareValue ~ Model.BSI (checker 401)",
+    "nontrivial_min_tokens": 20,
+}
+
 NOT_YET = {}
